@@ -35,7 +35,9 @@ fn settled(ack: &Arc<tinylfu_cached::cache::command::acknowledgement::CommandAck
     let mut handle = ack.handle();
     let _ = std::future::Future::poll(std::pin::Pin::new(&mut handle), &mut context);
     let deadline = Instant::now() + Duration::from_secs(5);
+    lock_api::verif_log::probing(true);
     while !ack.verif_peek().0 && Instant::now() < deadline { std::thread::sleep(Duration::from_micros(100)); }
+    lock_api::verif_log::probing(false);
     // and one poll of the completed acknowledgement: the status is read under the waker lock
     let _ = std::future::Future::poll(std::pin::Pin::new(&mut handle), &mut context);
 }
@@ -48,6 +50,8 @@ fn cover_every_program(cache: &Arc<CacheD<u64, u64>>, clock: &ManualClock, shard
     if let Ok(ack) = cache.put_or_update(PutOrUpdateRequestBuilder::new(100).weight(2).build()) { settled(&ack); }
     let _ = cache.get_ref(&100).map(|reference| reference.value().value());
     let _ = cache.get(&100);
+    if let Ok(ack) = cache.put_with_weight(109, 1, 1) { settled(&ack); }
+    if let Ok(ack) = cache.delete(109) { settled(&ack); }
     // pressure: fill the cache, then one more key has to evict (sample over >= 2 shards, estimates, delete hook)
     let each = (max / 4).max(1);
     for key in 101..108u64 { if let Ok(ack) = cache.put_with_weight(key, 1, each) { settled(&ack); } }
@@ -138,6 +142,9 @@ pub fn run(seed: u64, out: &str, millis: u64) -> bool {
         if !done.load(Ordering::SeqCst) { sink.both("# hang shutdown()_did_not_return_under_load"); sink.flush(); std::process::exit(3); }
         stop.store(true, Ordering::SeqCst);
         for thread in threads { let _ = thread.join(); }
+        // non-blocking acquisitions attempted by the crate (read BEFORE anything of the harness probes a lock)
+        let mut tries: Vec<String> = lock_api::verif_log::tries().iter().map(|t| class_of(t)).collect();
+        tries.sort(); tries.dedup();
         drop(cache);
         let mut edges: Vec<(String, String, bool)> = lock_api::verif_log::edges().into_iter().map(|(a, b, same)| (class_of(&a), class_of(&b), same)).collect();
         edges.sort(); edges.dedup();
@@ -150,6 +157,8 @@ pub fn run(seed: u64, out: &str, millis: u64) -> bool {
         let mut nested: Vec<String> = lock_api::verif_log::edges().into_iter().filter(|(_, _, same)| !*same).map(|(a, b, _)| format!("{}>{}", class_of(&a), class_of(&b))).collect();
         nested.sort(); nested.dedup();
         writeln!(sink.input, "L cover {}", if nested.is_empty() { "-".to_string() } else { nested.join(",") }).unwrap();
+        writeln!(sink.implementation, "R ok").unwrap();
+        writeln!(sink.input, "L tries {}", if tries.is_empty() { "-".to_string() } else { tries.join(",") }).unwrap();
         writeln!(sink.implementation, "R ok").unwrap();
         let mut held_at: Vec<(String, String)> = verif::held_at_points().into_iter().map(|(point, held)| {
             let mut classes: Vec<String> = held.split(';').filter(|h| !h.is_empty()).map(class_of).collect();
